@@ -357,6 +357,13 @@ Definition unreadable_body (r : request) (a : areq) : bool :=
 Definition put_breaks (a : areq) : bool :=
   match a with APut _ _ true => true | _ => false end.
 
+(** PROPPATCH is not among the methods the statement of C01 speaks about (and it is a known
+    method, so "405 for unknown methods" does not apply either): the model answers 403
+    (properties cannot be changed on this server) or 400; the verdict accepts any answer —
+    RFC 4918 section 9.2 would have 404 for a missing target and a 207 listing each
+    property under 403 — as long as nothing changes and no host path is disclosed. *)
+Definition is_proppatch (r : request) : bool := String.eqb (meth r) "PROPPATCH".
+
 Definition spec_ok_with (tb ta : path -> string) (root : path) (sb : option node) (r : request) (o : response) (sb' : option node) : bool :=
   let M := abs sb in
   let a := parse_req root r in
@@ -364,7 +371,8 @@ Definition spec_ok_with (tb ta : path -> string) (root : path) (sb : option node
   let refs := refusals root M a (cond_refusals tag r) in
   (status_ok (status o) refs (success_status M a) ||
    ((properly_nested a || unreadable_body r a) && N.leb 400 (status o) && N.ltb (status o) 500) ||
-   (put_breaks a && N.leb 400 (status o) && N.ltb (status o) 600)) &&
+   (put_breaks a && N.leb 400 (status o) && N.ltb (status o) 600) ||
+   (is_proppatch r && match a with ARefused _ => true | _ => false end)) &&
   match refs with
   | _ :: _ => amap_agree (relevant_paths sb sb' a) (abs sb') M   (* refused: nothing changes *)
   | [] =>
